@@ -1,13 +1,13 @@
 (* XmlFmtProofsC -- C08, "completes": under the hypotheses of the accept refinement every handler
-   returns (no ValueError from _xpath, no KeyError from the attribute handlers, no failed assert), given
-   that the text diff itself returns (DMPTotalMain.bisect_safe, the one open obligation of the DMP model;
-   diff_cleanupSemantic is total unconditionally).  text_tags = [], use_replace = false.
+   returns (no ValueError from _xpath, no KeyError from the attribute handlers, no failed assert); the text
+   diff itself returns (DMPBisect5.bisect_safe_holds, DMPTotalSem.cleanupSemantic_total, DMPRealign.join_total,
+   through XmlFmtProofsR2.make_diff_tags_gen).  text_tags = [], with or without use_replace.
    No axioms. *)
 From Coq Require Import List NArith ZArith Bool Arith Lia.
 Import ListNotations.
 Require Import XV.Str XV.Json XV.TextFormat XV.Forest XV.Matcher XV.Differ XV.Spec XV.Path XV.WF XV.ForestProofs XV.TreeProofs
                XV.AttrProofs XV.PathProofs XV.PatcherProofs XV.Render XV.XmlFmt XV.Projections
-               XV.XmlFmtProofs0 XV.XmlFmtProofs1 XV.XmlFmtProofs2 XV.XmlFmtProofs3 XV.XmlFmtProofs4 XV.XmlFmtProofs5
+               XV.XmlFmtProofs0 XV.XmlFmtProofs1 XV.XmlFmtProofs2 XV.XmlFmtProofsR2 XV.XmlFmtProofs3 XV.XmlFmtProofs4 XV.XmlFmtProofs5
                XV.XmlFmtProofs6 XV.XmlFmtProofs7 XV.XmlFmtProofs8 XV.XmlFmtProofs9 XV.XmlFmtProofsB.
 Require XV.Placeholder XV.PlaceholderUndo.
 Require XV.DMP XV.DMPBase XV.DMPMain XV.DMPSemantic XV.DMPTotal XV.DMPTotalMain XV.DMPTotalSem.
@@ -16,25 +16,12 @@ Local Open Scope nat_scope.
 Lemma of_dmp_total {A} (r : DMP.result A) : DMPTotal.total r -> exists a, r = DMP.Ok a /\ of_dmp r = FOk a.
 Proof. intros [a ->]. exists a. auto. Qed.
 
-Theorem make_diff_tags_total c o left right in_tail :
-  DMPTotalMain.bisect_safe -> c_replace c = false -> plain left -> plain right ->
-  exists r, make_diff_tags c o ph_init left right in_tail = FOk r.
+Theorem make_diff_tags_total c o s left right in_tail :
+  tinv s -> plain left -> plain right ->
+  (c_replace c = true -> (Placeholder.ctr s + N.of_nat (length (norm_if c right)) <= Placeholder.PUA_END)%N) ->
+  exists r, make_diff_tags c o s left right in_tail = FOk r.
 Proof.
-  intros Hbis Hr Hl Hrt. unfold make_diff_tags, text_diff. fold (norm_if c left). fold (norm_if c right).
-  destruct (of_dmp_total _ (DMPTotalMain.diff_main_total (o_cc o) (o_clock o) (norm_if c left) (norm_if c right) Hbis)) as (d0 & E0 & ->).
-  cbn [fbind].
-  destruct (of_dmp_total _ (DMPTotalSem.cleanupSemantic_total (o_cc o) d0)) as (d1 & E1 & ->). cbn [fbind].
-  apply DMPMain.diff_main_spec in E0 as (A1 & A2 & _).
-  apply DMPSemantic.cleanupSemantic_t12 in E1 as (B1 & B2 & B3).
-  assert (P1 : plain (DMP.t1 d1)) by (rewrite B1, A1; apply norm_if_plain, Hl).
-  assert (P2 : plain (DMP.t2 d1)) by (rewrite B2, A2; apply norm_if_plain, Hrt).
-  pose proof (segs_plain d1 P1 P2) as SP.
-  assert (SO : Forall (seg_ok (cls_of ph_init)) d1).
-  { rewrite Forall_forall in *. intros sg Hin. split; [|apply B3, Hin].
-    intros ch Hc. apply cls_init_plain. specialize (SP _ Hin). apply plain_Forall in SP.
-    rewrite Forall_forall in SP. apply SP, Hc. }
-  rewrite (realign_plain _ _ SO). cbn [of_dmp fbind]. rewrite Hr. cbn [fbind].
-  rewrite (mdt_loop_plain (c_fmt c) in_tail d1 SP). eauto.
+  intros H Hl Hr Hroom. destruct (make_diff_tags_gen c o s left right in_tail H Hl Hr Hroom) as (s' & ps & E & _). eauto.
 Qed.
 
 Section Progress.
@@ -43,8 +30,6 @@ Variable o : oracle.
 Variable rootns : list (option str * str).
 Variable pe : penv.
 Variable root : id.
-Hypothesis Hrep : c_replace c = false.
-Hypothesis Hbis : DMPTotalMain.bisect_safe.
 Let ws := ws_text c.
 
 Lemma upd_node_ok st p n h n' : node_at (fs_tree st) p = FOk n -> h n = FOk n' ->
@@ -53,12 +38,12 @@ Proof. intros E1 E2. unfold upd_node. rewrite E1. cbn [fbind]. rewrite E2. cbn [
 
 (* every handler returns *)
 Theorem progress_step f st d a f' D :
-  ainv c rootns pe root f st d -> fs_ph st = ph_init ->
-  spec_apply root f a = Some f' -> dact_of pe root f a = FOk D -> step_ok rootns st D ->
+  ainv c rootns pe root f st d -> tinv (fs_ph st) ->
+  spec_apply root f a = Some f' -> dact_of pe root f a = FOk D -> step_ok rootns st D -> room_ok c st D ->
   exists st', handle_d c o rootns st D = FOk st'.
 Proof.
-  intros HI Hph Hs HD Hok.
-  destruct a; cbn [dact_of] in HD; inversion HD; subst D; clear HD; cbn [spec_apply handle_d] in *.
+  intros HI Hph Hs HD Hok Hroom.
+  destruct a; cbn [dact_of] in HD; inversion HD; subst D; clear HD; cbn [spec_apply handle_d room_ok] in *.
   - (* Insert *)
     destruct (alive f root target && is_elem f target && Nat.leb pos (length (kidsof f target)) && Nat.eqb newid (fnext f)) eqn:C; [|discriminate].
     apply and4 in C as (C1 & _). destruct (resolve_node c rootns pe root f st d target HI C1) as (q & kn & Er & HL & HG & Hk).
@@ -85,8 +70,7 @@ Proof.
     rewrite (node_at_dt c rootns pe root f st d q kn HI HG). cbn [fbind].
     assert (Gq : get_at (fs_tree st) q = Some (erase kn)) by (rewrite <- (ai_erase _ _ _ _ _ _ _ HI), get_at_erase, HG; reflexivity).
     destruct (is_inserted (erase kn)) eqn:Ei; [eauto|].
-    rewrite Hph.
-    destruct (make_diff_tags_total c o (otxt (xtext (erase kn))) (otxt t) false Hbis Hrep (Hold q (erase kn) Er Gq Ei) Htxt) as ([[s' out] any] & ->).
+    destruct (make_diff_tags_total c o (fs_ph st) (otxt (xtext (erase kn))) (otxt t) false Hph (Hold q (erase kn) Er Gq Ei) Htxt Hroom) as ([[s' out] any] & ->).
     cbn [fbind]. eauto.
   - (* Tail *)
     destruct (alive f root n && negb (Nat.eqb n root)) eqn:C; [|discriminate]. apply andb_true_iff in C as [C1 _].
@@ -95,9 +79,9 @@ Proof.
     unfold handle_UpdateTextAfter, gpath. rewrite Er. cbn [fbind].
     rewrite (node_at_dt c rootns pe root f st d q kn HI HG). cbn [fbind].
     assert (Gq : get_at (fs_tree st) q = Some (erase kn)) by (rewrite <- (ai_erase _ _ _ _ _ _ _ HI), get_at_erase, HG; reflexivity).
-    destruct (Hold q (erase kn) Er Gq) as [Hq Hpl]. rewrite Hph.
+    destruct (Hold q (erase kn) Er Gq) as [Hq Hpl].
     destruct q as [|i q]; [congruence|].
-    destruct (make_diff_tags_total c o (xtail (erase kn)) (otxt t) true Hbis Hrep Hpl Htxt) as ([[s' out] any] & ->).
+    destruct (make_diff_tags_total c o (fs_ph st) (xtail (erase kn)) (otxt t) true Hph Hpl Htxt Hroom) as ([[s' out] any] & ->).
     cbn [fbind]. eauto.
   - (* UpdAttr *)
     destruct (alive f root n && is_elem f n && ahas (lattrs (labof f n)) k) eqn:C; [|discriminate].
@@ -144,6 +128,17 @@ Proof.
 Qed.
 End Progress.
 
+(* one step: everything finalize needs is kept *)
+Theorem step_invariants S c o rootns st d st' :
+  tinv S -> winv S (fs_tree st) -> wclean (fs_tree st) -> tinv (fs_ph st) -> sext (fs_ph st') S ->
+  step_ok rootns st d -> room_ok c st d -> act_plain d -> handle_d c o rootns st d = FOk st' ->
+  winv S (fs_tree st') /\ wclean (fs_tree st') /\ tinv (fs_ph st') /\ sext (fs_ph st) (fs_ph st').
+Proof.
+  intros HS HW HC Hph HX Hok Hroom Hpl H.
+  destruct (step_reject S HS c o rootns st d st' HW Hph HX Hok Hroom H) as (A & [B1 B2] & _).
+  split; [exact A|]. split; [exact (step_clean c o rootns st d st' HC Hok Hpl H)|]. split; assumption.
+Qed.
+
 (* ------------------------------------------------------------------ *)
 (** * Along a script *)
 
@@ -166,20 +161,17 @@ Variable o : oracle.
 Variable rootns : list (option str * str).
 Variable pe : penv.
 Variable root : id.
-Hypothesis Hrep : c_replace c = false.
-Hypothesis Hbis : DMPTotalMain.bisect_safe.
 Let ws := ws_text c.
 
 Theorem total_script script : forall f st d gs fT,
   wf_forest f root -> erase d = fs_tree st -> rel ws f d -> did d = root -> alive_d d = true ->
-  winv (fs_tree st) -> wclean (fs_tree st) -> fs_ph st = ph_init ->
+  wclean (fs_tree st) -> tinv (fs_ph st) ->
   run_spec root f script = Some fT -> render_script pe root f script = Some gs ->
   fscript_ok rootns pe root (fs_ns st) f script -> Forall names_plain script -> Forall iact_plain script ->
   run_ok c o rootns st gs ->
-  exists st', handle_all c o rootns st gs = FOk st' /\
-              winv (fs_tree st') /\ wclean (fs_tree st') /\ fs_ph st' = ph_init.
+  exists st', handle_all c o rootns st gs = FOk st' /\ wclean (fs_tree st').
 Proof.
-  induction script as [|a r IH]; intros f st d gs fT Hwf He HR Hid Hal HW HC Hph Hrun Hren Hok Hnp Hip Hro.
+  induction script as [|a r IH]; intros f st d gs fT Hwf He HR Hid Hal HC Hph Hrun Hren Hok Hnp Hip Hro.
   - cbn [run_spec render_script] in *. inversion Hren as [Egs]. cbn [handle_all]. eauto.
   - cbn [run_spec render_script fscript_ok] in *.
     destruct (spec_apply root f a) as [f1|] eqn:Hspec; [|discriminate].
@@ -187,13 +179,13 @@ Proof.
     cbn [option_map] in Hren. inversion Hren; subst gs. clear Hren.
     destruct Hok as (Henv & Hnm & Hok). apply Forall_cons_iff in Hnp as [Hnp1 Hnpr]. apply Forall_cons_iff in Hip as [Hip1 Hipr].
     destruct (iact_plain_dact pe root f a Hip1) as (D & ED & HpD).
-    cbn [run_ok] in Hro. rewrite decode_render, ED in Hro. destruct Hro as [Hs Hr].
+    cbn [run_ok] in Hro. rewrite decode_render, ED in Hro. destruct Hro as (Hs & Hroom & Hr).
     assert (HI : ainv c rootns pe root f st d) by (constructor; assumption).
-    destruct (progress_step c o rootns pe root Hrep Hbis f st d a f1 D HI Hph Hspec ED Hs) as [st1 E1].
-    destruct (accept_step c o rootns pe root Hrep f st d a f1 D st1 HI Hph Hspec ED Hs E1) as (d1 & He1 & HR1 & Hid1 & Hal1).
-    destruct (step_reject c o rootns Hrep st D st1 HW Hph Hs E1) as (HW1 & Hph1 & _).
+    destruct (progress_step c o rootns pe root f st d a f1 D HI Hph Hspec ED Hs Hroom) as [st1 E1].
+    destruct (accept_step c o rootns pe root f st d a f1 D st1 HI Hph Hspec ED Hs Hroom E1) as (d1 & He1 & HR1 & Hid1 & Hal1).
+    destruct (step_ph c o rootns st D st1 Hph Hs Hroom E1) as (Hph1 & _).
     pose proof (step_clean c o rootns st D st1 HC Hs HpD E1) as HC1.
-    destruct (IH f1 st1 d1 gs' fT) as (st' & E' & R1 & R2 & R3); auto.
+    destruct (IH f1 st1 d1 gs' fT) as (st' & E' & R2); auto.
     + eapply spec_apply_wf; eauto.
     + rewrite (handle_d_ns c o rootns pe root st a f D st1 ED E1). exact Hok.
     + exists st'. cbn [handle_all]. rewrite handle_action_decode, decode_render, ED. cbn [fbind]. rewrite E1. cbn [fbind]. auto.
@@ -218,16 +210,19 @@ Proof.
   assert (E0 : erase d0 = W) by (apply (erase_dt_of L _ root HF HC)).
   destruct (rel_init (ws_text c) L _ root HF HC ltac:(fold d0; rewrite E0; exact HN) ltac:(fold d0; rewrite E0; exact HP)) as [HR0 Ha0].
   fold d0 in HR0, Ha0.
-  assert (HW : winv W).
+  destruct (total_script script L (FS W ph_init [(Some DIFF_PREFIX, DIFF_NS)]) d0 gs fT
+              Hwf E0 HR0 eq_refl Ha0 HWc tinv_init Hrun Hren Hok Hnp Hip Hro) as (st' & E & Cn).
+  destruct (handle_all_ph c o rootns gs (FS W ph_init [(Some DIFF_PREFIX, DIFF_NS)]) st' tinv_init Hro E) as [HS _].
+  set (S := fs_ph st') in *.
+  assert (HW : winv S W).
   { split; [apply npua_run_tree, HP|exact HCl| |].
     - unfold W, doc_tree. cbn [to_tree]. rewrite remove_comments_unfold.
       + cbn [xtail]. rewrite (wf_root_tail _ _ Hwf). reflexivity.
       + apply Forall_forall. intros t Ht. apply in_map_iff in Ht as (m & <- & Hm). rewrite to_tree_label. apply HC, desc_child, Hm.
     - pose proof (nodiff_unmarked W HN) as HU. destruct W as [wt wa wx wl wk]. inversion HU as [? ? ? ? ? Hx _ _]; subst.
       unfold is_inserted, ahas. cbn [xattrs]. now rewrite Hx. }
-  destruct (total_script script L (FS W ph_init [(Some DIFF_PREFIX, DIFF_NS)]) d0 gs fT
-              Hwf E0 HR0 eq_refl Ha0 HW HWc eq_refl Hrun Hren Hok Hnp Hip Hro) as (st' & E & I & Cn & P).
-  destruct (finalize_clean (fs_tree st') I Cn) as (T & F & O).
-  exists T. unfold xml_format. rewrite E. cbn [fbind]. rewrite P. auto.
+  destruct (handle_all_reject c o rootns S gs HS (FS W ph_init [(Some DIFF_PREFIX, DIFF_NS)]) st' HW tinv_init Hro E (sext_refl _)) as (I & _).
+  destruct (finalize_clean S HS (fs_tree st') I Cn) as (T & F & O).
+  exists T. unfold xml_format. rewrite E. cbn [fbind]. auto.
 Qed.
 End Total.
